@@ -20,6 +20,14 @@ func main() {
 	selftest := flag.Bool("selftest", false, "run the overlay kill-matrix for -prop (tests the checker, not the repository)")
 	debug := flag.String("debug", "", "debug: traces:<rule>")
 	flag.Parse()
+	if strings.HasPrefix(*debug, "walkpc:") {
+		engine.DebugWalkPC(*repo, strings.TrimPrefix(*debug, "walkpc:"), 40)
+		return
+	}
+	if strings.HasPrefix(*debug, "walk:") {
+		engine.DebugWalk(*repo, strings.TrimPrefix(*debug, "walk:"))
+		return
+	}
 	if strings.HasPrefix(*debug, "traces:") {
 		parts := strings.Split(strings.TrimPrefix(*debug, "traces:"), ":")
 		if len(parts) == 2 {
